@@ -146,6 +146,8 @@ def _same(a: object, b: object) -> bool:
         return f64_bits(a) == f64_bits(b)
     if isinstance(b, bool) or isinstance(a, bool):
         return a is b
+    if isinstance(a, tuple) and isinstance(b, tuple):
+        return len(a) == len(b) and all(_same(x, y) for x, y in zip(a, b))
     return type(a) is type(b) and a == b if isinstance(b, (bytes, str, tuple)) else a == b
 
 
@@ -506,6 +508,36 @@ def row_arrays(c: Ctx) -> None:
         c.expect_encoding(W.legacy_array_writer(iw), R.legacy_array_reader(ir), vals, n.to_bytes(4, "big") + body)
         c.expect_encoding(W.compact_array_writer(iw), None, list(vals), refcodec.uvarint(n + 1) + body)
         c.distinct += 1
+    # the array combinators take any item function: every fixed-width and varint kind, with the ends of its domain among the items
+    # (a bulk path that treats one item kind as another shows only there)
+    import struct as _struct
+    import uuid as _uuid
+
+    def ints(bits: int, signed: bool) -> tuple:
+        lo, hi = (-(2 ** (bits - 1)), 2 ** (bits - 1) - 1) if signed else (0, 2**bits - 1)
+        return (lo, hi, 0, 1, hi // 2 + 1, lo + 1, hi - 1, (hi // 2) ^ 0x55, -1 if signed else hi // 3)
+
+    kinds = [(getattr(W, f"write_{'' if sg else 'u'}int{b}"), getattr(R, f"read_{'' if sg else 'u'}int{b}"), ints(b, sg),
+              (lambda v, b=b, sg=sg: v.to_bytes(b // 8, "big", signed=sg))) for b in (8, 16, 32, 64) for sg in (True, False)]
+    kinds += [
+        (W.write_float64, R.read_float64, (0.0, -0.0, 1.5, -1e308, 5e-324, math.inf, -math.inf, 2.0**53 + 2), lambda v: _struct.pack(">d", v)),
+        (W.write_boolean, R.read_boolean, (True, False, True, True, False), lambda v: b"\x01" if v else b"\x00"),
+        (W.write_uuid, R.read_uuid, (_uuid.UUID(int=1), _uuid.UUID(int=2**128 - 1), _uuid.UUID(int=2**127), _uuid.UUID(int=0x0102030405060708090A0B0C0D0E0F10)), lambda v: v.bytes),
+        (W.write_unsigned_varint, R.read_unsigned_varint, (0, 1, 127, 128, 16383, 16384, 2**31 - 1), refcodec.uvarint),
+        (W.write_signed_varint, R.read_signed_varint, (0, -1, 1, 63, -64, 64, -65, 2**31 - 1, -(2**31)), refcodec.svarint),
+        (W.write_signed_varlong, R.read_signed_varlong, (0, -1, 2**63 - 1, -(2**63), 2**31, -(2**31) - 1), refcodec.svarlong),
+        (W.write_legacy_string, R.read_legacy_string, ("", "a", "\u00e9\u20ac", "x" * 300), lambda v: len(v.encode()).to_bytes(2, "big") + v.encode()),
+        (W.write_compact_string, R.read_compact_string, ("", "a", "\u00e9\u20ac", "x" * 300), lambda v: refcodec.uvarint(len(v.encode()) + 1) + v.encode()),
+    ]
+    for k, (iw, ir, values, enc) in enumerate(kinds):
+        if not c.mine(k):
+            continue
+        for vals in (tuple(values), tuple(reversed(values)), tuple(values) * 150):
+            body = b"".join(enc(v) for v in vals)
+            c.expect_encoding(W.compact_array_writer(iw), R.compact_array_reader(ir), vals, refcodec.uvarint(len(vals) + 1) + body)
+            c.expect_encoding(W.legacy_array_writer(iw), R.legacy_array_reader(ir), vals, len(vals).to_bytes(4, "big") + body)
+            c.distinct += 1
+            c.res.count("array_item_kind_cases")
     if c.i == 3 % c.n:
         c.expect_encoding(W.compact_array_writer(W.write_int8), R.compact_array_reader(R.read_int8), None, b"\x00")
         c.expect_encoding(W.legacy_array_writer(W.write_int8), R.legacy_array_reader(R.read_int8), None, b"\xff\xff\xff\xff")
